@@ -450,10 +450,14 @@ func run(sp spec, root string, seed int64) *annh.Sc {
 	return sc
 }
 
-// runRtx: three torrents of one session share one UDP tracker (one transport, one socket). The tracker ignores the first
-// announce datagram of torrent 1, so BEP 15 makes the client retransmit it (15 s, fixed in udptracker/backoff.go) while the
-// other two torrents keep announcing through the same transport. Every datagram that reaches the tracker is compared with
-// the first one of its transaction (annh.Trk `rtx` lines).
+// runRtx: five torrents of one session share one UDP tracker (one transport, one socket). The tracker ignores the first
+// announce datagram of torrent 1, so BEP 15 makes the client retransmit it (15 s, fixed in udptracker/backoff.go) while
+// torrents 2 and 3 keep announcing through the same transport. The first announce of torrents 4 and 5 is answered with an
+// ERROR packet (action 3: plain text / bencoded failure reason), the retry of the announcer is accepted with a long interval:
+// a transaction that was answered - by data or by an error - is finished, so the observation window (first retransmission
+// time-out of BEP 15 + 4.5 s) must not show another datagram with its transaction id. Every datagram that reaches the
+// tracker is compared with the first one of its transaction (annh.Trk `rtx` lines).
+const rtxTorrents = 5
 var stall = annh.NewStallMeter()
 
 func runRtx(sp spec, sc *annh.Sc, root string, seed int64) *annh.Sc {
@@ -485,25 +489,39 @@ func runRtx(sp spec, sc *annh.Sc, root string, seed int64) *annh.Sc {
 	sc.Trk = []annh.TrkCfg{{UDP: true, Dest: 1, Up0: true}}
 	var trs []*torrent.Torrent
 	var tors []*vh.Torrent
-	for i := 0; i < 3; i++ {
+	for i := 0; i < rtxTorrents; i++ {
 		tor := annh.SmallTorrent(fmt.Sprintf("c15-%s-%d", sp.name, i), sp.size, seed*10+int64(i), [][]string{{k.URL()}})
-		tr, err := env.Add(tor, fmt.Sprintf("t%d-%s", i, sp.name), true, false)
+		// torrents 4 and 5 are complete (seeding): they need no peers, so after the accepted retry the tracker's interval governs
+		pre := i >= 3
+		tr, err := env.Add(tor, fmt.Sprintf("t%d-%s", i, sp.name), true, pre)
 		if err != nil {
 			sc.Fail("add: %v", err)
 			return sc
 		}
-		sc.Tor = append(sc.Tor, annh.TorCfg{IH: hex.EncodeToString(tor.InfoHash[:]), Port: tr.Port(), Total: tor.Total, Left0: tor.Total})
+		left0 := tor.Total
+		if pre {
+			left0 = 0
+		}
+		sc.Tor = append(sc.Tor, annh.TorCfg{IH: hex.EncodeToString(tor.InfoHash[:]), Port: tr.Port(), Total: tor.Total, Left0: left0})
 		sc.Ann = append(sc.Ann, annh.AnnCfg{T: i + 1, Ks: []int{1}})
 		trs, tors = append(trs, tr), append(tors, tor)
 	}
-	ihA := sc.Tor[0].IH
+	ihA, ihD, ihE := sc.Tor[0].IH, sc.Tor[3].IH, sc.Tor[4].IH
 	k.Plan = func(n int, r vh.AnnReq) annh.Rep {
-		if _, seen := first.LoadOrStore(r.InfoHash, true); !seen && r.InfoHash == ihA {
+		_, seen := first.LoadOrStore(r.InfoHash, true)
+		switch {
+		case !seen && r.InfoHash == ihA:
 			return annh.Rep{Kind: "rtx", Up: true}
+		case !seen && r.InfoHash == ihD: // error packet with a plain-text message
+			return annh.Rep{Kind: "fail", Up: true}
+		case !seen && r.InfoHash == ihE: // error packet with a bencoded failure reason (what the client decodes)
+			return annh.Rep{Kind: "fail", Up: true, Msg: string(vh.Enc(vh.Dict{"failure reason": "torrent not registered yet"}))}
+		case r.InfoHash == ihD || r.InfoHash == ihE: // the retry is accepted: nothing more is due for half an hour
+			return annh.OK(vh.I64(1800), nil)
 		}
 		return annh.OK(vh.I64(1), nil)
 	}
-	for i := 0; i < 3; i++ {
+	for i := 0; i < rtxTorrents; i++ {
 		sc.Line("start", map[string]any{"t": i + 1})
 		if err := trs[i].Start(); err != nil {
 			sc.Fail("start: %v", err)
@@ -514,7 +532,7 @@ func runRtx(sp spec, sc *annh.Sc, root string, seed int64) *annh.Sc {
 			return sc
 		}
 	}
-	for i := 0; i < 3; i++ {
+	for i := 0; i < rtxTorrents; i++ {
 		pid, err := annh.HandshakePeerID("127.0.0.9", sc.Tor[i].Port, tors[i].InfoHash)
 		if err != nil {
 			sc.Fail("handshake: %v", err)
@@ -528,11 +546,11 @@ func runRtx(sp spec, sc *annh.Sc, root string, seed int64) *annh.Sc {
 		time.Sleep(250 * time.Millisecond)
 		sc.Line("tick", nil)
 	}
-	for i := 0; i < 3; i++ {
+	for i := 0; i < rtxTorrents; i++ {
 		sc.Line("stop", map[string]any{"t": i + 1})
 		trs[i].Stop()
 	}
-	for i := 0; i < 3; i++ {
+	for i := 0; i < rtxTorrents; i++ {
 		annh.WaitUntil(5*time.Second, func() bool { return trs[i].Stats().Status == torrent.Stopped })
 	}
 	time.Sleep(50 * time.Millisecond)
